@@ -152,14 +152,23 @@ Section Names.
   Qed.
 End Names.
 
-(* ---------- C08 for accepted tag sets: hypotheses on the values and the two ends only ---------- *)
+(* ---------- C08 for accepted tag sets: hypotheses on the values and the first name only ---------- *)
+Lemma pairs_safe_of_values m : (forall kv, In kv m -> name_ok (fst kv) = true) -> tag_values_safe m = true ->
+  tag_pairs_safe m = true.
+Proof.
+  induction m as [|[k v] tl IH]; intros Hn Hv; [reflexivity|].
+  cbn [tag_values_safe] in Hv. apply andb_true_iff in Hv as [Hv Htl]. cbn [tag_pairs_safe].
+  pose proof (Hn (k, v) (or_introl eq_refl)) as Hk. cbn [fst] in Hk. rewrite Hk, Hv. cbn [andb]. apply IH; [|exact Htl].
+  intros kv Hin. apply Hn. right. exact Hin.
+Qed.
+
 Theorem tags_roundtrip_parsed quote unquote : QuoteSpec quote unquote ->
   forall s m, to_map unquote s = Ok m ->
-    forallb (fun kv => tag_value_safe (snd kv)) m = true -> tag_edges_ok m = true ->
+    tag_values_safe m = true -> tag_edges_ok m = true ->
     to_map unquote (line quote m) = Ok m.
 Proof.
   intros QS s m Hm Hv He. apply (tags_roundtrip quote unquote QS).
   - apply SS_keys_sorted. exact (to_map_canonical unquote s m Hm).
-  - unfold tag_safe. rewrite He, andb_true_r. rewrite forallb_forall in *. intros kv Hin.
-    unfold tag_pair_safe. rewrite (to_map_names unquote s m Hm kv Hin), (Hv kv Hin). reflexivity.
+  - unfold tag_safe. rewrite He, andb_true_r. apply pairs_safe_of_values; [|exact Hv].
+    exact (to_map_names unquote s m Hm).
 Qed.
